@@ -117,9 +117,12 @@ static void tail_status(void) {
   printf(" wsz=%ld trunc=%d rfo=%lld\n", fsize(walpath), n_trunc, wal ? (long long) wal->rollforward_offset : -1LL);
 }
 
+static int g_norebase;   // 1: leave the log as a forced checkpoint left it (record-kind scan of the async stream)
+
 static void exec_line(char *line) {
   char *w[16]; int n = hx_words(line, w, 16);
   if (!n) { printf("bad-op\n"); return; }
+  if (!strcmp(w[0], "norebase") && n == 2) { g_norebase = atoi(w[1]); printf("norebase %d\n", g_norebase); return; }
   if (!strcmp(w[0], "open") && n == 4) {            // open <path> <crc> <bufsz>: fresh store, WAL on
     snprintf(kvpath, sizeof kvpath, "%s", w[1]); snprintf(walpath, sizeof walpath, "%s-wal", w[1]);
     IWKV_OPTS o = { .path = kvpath, .oflags = IWKV_TRUNC, .wal = { .enabled = true, .check_crc_on_checkpoint = atoi(w[2]) != 0,
@@ -144,7 +147,7 @@ static void exec_line(char *line) {
     } else rc = iwkv_del(db, &key, fl);
     free(k);
     int rebased = 0;
-    if (n_trunc != t0 && !in_backup) {   // file growth forced a checkpoint inside the operation: re-base on a clean checkpoint
+    if (n_trunc != t0 && !in_backup && !g_norebase) {   // file growth forced a checkpoint inside the operation: re-base on a clean checkpoint
       iwrc r2 = iwal_test_checkpoint(kv); rebased = r2 ? -1 : 1;
     }
     printf("%s %s rebased=%d", w[0], rcname(rc), rebased); tail_status();
